@@ -47,7 +47,7 @@ def run(tier, seed, replay=None, variants=None, prop='C05', prefixes=('C05_',), 
     rng = random.Random(seed)
     gate = cm.proof_gate(list(prefixes))
     n = 72 if tier == 'quick' else 720
-    kinds = ['flat', 'nested', 'multi', 'nested_big', 'nested', 'unsized', 'split', 'ltbound', 'tworoots', 'payload', 'combo', 'dupcols', 'unsized2', 'unsized_free', 'twokeys']
+    kinds = ['flat', 'nested', 'multi', 'nested_big', 'nested', 'unsized', 'split', 'ltbound', 'tworoots', 'payload', 'combo', 'dupcols', 'unsized2', 'unsized_free', 'twokeys', 'chain3']
     if replay:
         rp = json.load(open(replay))
         for k in ('program_a', 'program_b'):
